@@ -586,6 +586,10 @@ struct Gen<'a> {
     slots: u64,
     /// size class of this run: typical max dimension
     maxdim: u64,
+    /// contention scenario: all configs / (t,p) pairs of the run come from this small palette, so
+    /// that concurrently running and successive conversions keep switching between a few
+    /// *different* configurations (what a configuration-keyed cache would have to get right)
+    palette: Vec<CfgI>,
 }
 
 impl Gen<'_> {
@@ -605,6 +609,13 @@ impl Gen<'_> {
         }
     }
     fn cfg(&mut self, ty: u64) -> CfgI {
+        if !self.palette.is_empty() {
+            let mut c = self.r.pick(&self.palette.clone());
+            if ty == 0 && self.r.pct(70) {
+                c.bd = 8;
+            }
+            return c;
+        }
         let unspec = match self.prof {
             Profile::Metadata => 40,
             Profile::Constructors => 15,
@@ -667,7 +678,7 @@ impl Gen<'_> {
             Profile::Constructors => 45,
             _ => 8,
         };
-        let ill = self.r.pct(ill_pct);
+        let ill = self.palette.is_empty() && self.r.pct(ill_pct);
         let (ssx, ssy) = (op.cfg.ssx, op.cfg.ssy);
         let multiple = !ill || self.r.pct(50);
         let (lw, lh) = self.dims(ssx, ssy, multiple);
@@ -767,6 +778,11 @@ impl Gen<'_> {
         let unspec = if self.prof == Profile::Metadata { 40 } else { 8 };
         op.t = self.meta(N_SUP_TRCS, TRCS.len() as u64, unspec);
         op.p = self.meta(N_SUP_PRIS, PRIS.len() as u64, unspec);
+        if !self.palette.is_empty() {
+            let c = self.r.pick(&self.palette.clone());
+            op.t = c.tc;
+            op.p = c.cp;
+        }
         op.dataseed = self.r.next();
         let special = if self.prof == Profile::Safety { 30 } else { 8 };
         op.datamode = if class == CL_HSL && self.r.pct(70) {
@@ -800,6 +816,11 @@ impl Gen<'_> {
             let unspec = if self.prof == Profile::Metadata { 40 } else { 8 };
             op.t = self.meta(N_SUP_TRCS, TRCS.len() as u64, unspec);
             op.p = self.meta(N_SUP_PRIS, PRIS.len() as u64, unspec);
+            if !self.palette.is_empty() {
+                let c = self.r.pick(&self.palette.clone());
+                op.t = c.tc;
+                op.p = c.cp;
+            }
         }
         op.consume = u64::from(self.r.pct(50));
         op
@@ -807,11 +828,15 @@ impl Gen<'_> {
 
     fn op(&mut self) -> Op {
         // weights per profile: [newyuv, newfloat, conv, mutate, clone, drop, rewrap, read, logger, level]
-        let w: [u64; 10] = match self.prof {
+        let w: [u64; 10] = if !self.palette.is_empty() {
+            [10, 7, 68, 3, 3, 1, 1, 5, 1, 1]
+        } else {
+            match self.prof {
             Profile::Safety => [22, 12, 46, 4, 3, 3, 2, 4, 3, 1],
             Profile::Independence => [14, 8, 52, 6, 5, 3, 2, 6, 3, 1],
             Profile::Constructors => [26, 22, 16, 10, 7, 4, 6, 7, 1, 1],
             Profile::Metadata => [24, 14, 34, 2, 2, 2, 2, 6, 10, 4],
+            }
         };
         let total: u64 = w.iter().sum();
         let mut x = self.r.below(total);
@@ -897,15 +922,18 @@ pub fn generate(seed: u64, prof: Profile, miri: bool) -> RunTrace {
             _ => *[1u64, 1, 2, 2, 3, 4].get(r.below(6) as usize).unwrap_or(&1),
         }
     };
-    let nops = if miri { r.range(2, 4) } else { r.range(3, 40 / nthreads.max(1) + 3) };
-    let npre = if miri { r.range(3, 5) } else { r.range(2, 10) };
+    let nops = if miri { r.range(3, 5) } else { r.range(3, 40 / nthreads.max(1) + 3) };
+    let npre = if miri { r.range(4, 6) } else { r.range(2, 10) };
     let knobs = Knobs {
         slots,
         preempt: if miri { 0 } else { r.pick(&[0u64, 5, 20, 50, 50, 90]) },
         heap: if miri || r.pct(15) { 0 } else { r.range(1, 255) },
         iso: if miri { 0 } else { u64::from(r.pct(35)) * r.range(1, 2) },
     };
-    let mut g = Gen { r: &mut r, prof, slots, maxdim };
+    // a third of the native runs and two thirds of the Miri workloads are contention scenarios
+    let contention = r.pct(if miri { 66 } else { 33 });
+    let palette = if contention { make_palette(&mut r) } else { Vec::new() };
+    let mut g = Gen { r: &mut r, prof, slots, maxdim, palette };
     let mut pre = Vec::new();
     // the preamble populates the pool: constructors (mostly well formed so that there is
     // something to convert), one of each class first
@@ -935,6 +963,55 @@ pub fn generate(seed: u64, prof: Profile, miri: bool) -> RunTrace {
     RunTrace { seed, knobs, pre, threads, sched: Vec::new() }
 }
 
+/// 2-3 fully specified configurations that differ along one axis a cache could be keyed on.
+fn make_palette(r: &mut Rng) -> Vec<CfgI> {
+    let n = r.range(2, 3);
+    let base = CfgI {
+        bd: r.pick(&[8u64, 8, 10, 12]),
+        ssx: 0,
+        ssy: 0,
+        full: r.below(2),
+        mc: 1 + r.below(N_STD_MATS),
+        tc: 1 + r.below(N_SUP_TRCS),
+        cp: 1 + r.below(10), // physical primaries (not ST 428)
+    };
+    let axis = r.below(6);
+    let ss = r.pick(&[(0u64, 0u64), (0, 0), (1, 1), (1, 0)]);
+    let mut v = Vec::new();
+    for i in 0..n {
+        let mut c = base;
+        c.ssx = ss.0;
+        c.ssy = ss.1;
+        match axis {
+            // chromaticity-derived matrix, different primaries: the most expensive matrix to build
+            0 => {
+                c.mc = r.pick(&[8u64, 9, 11, 12, 13]);
+                c.cp = 1 + (base.cp + i * (1 + r.below(3))) % 10;
+            }
+            // different standard matrices
+            1 => c.mc = 1 + (base.mc + i) % N_STD_MATS,
+            // same matrix, different depth / range
+            2 => {
+                c.bd = [8u64, 10, 12, 16][((base.bd + i) % 4) as usize];
+                c.full = (base.full + i) % 2;
+            }
+            // different transfer curves
+            3 => c.tc = 1 + (base.tc + i * (1 + r.below(4))) % N_SUP_TRCS,
+            // different primaries
+            4 => c.cp = 1 + (base.cp + i * (1 + r.below(3))) % 10,
+            // everything differs
+            _ => {
+                c.mc = 1 + r.below(13);
+                c.tc = 1 + r.below(N_SUP_TRCS);
+                c.cp = 1 + r.below(10);
+                c.bd = r.pick(&[8u64, 10, 16]);
+            }
+        }
+        v.push(c);
+    }
+    v
+}
+
 fn shrink_for_miri(op: &mut Op) {
     match op.k {
         Kind::NewYuv => {
@@ -962,9 +1039,12 @@ fn shrink_for_miri(op: &mut Op) {
                     op.geo[pl + 1] = shrink(op.geo[pl + 1], 1);
                 }
             }
+            // v_frame rounds any non-zero x padding up to a 64-byte origin: hundreds of samples per
+            // row to initialise and snapshot. Padding is the native engine's business.
             for i in 10..16 {
-                op.geo[i] = op.geo[i].min(2);
+                op.geo[i] = 0;
             }
+            op.padseed = 0;
         }
         Kind::NewFloat => {
             if op.geo[1] > 6 || op.geo[2] > 6 {
